@@ -137,8 +137,12 @@ theorem terminateList_core (l : List SigId) : SameCore s (s.terminateList l) := 
 theorem deliverTo_core (i m) : SameCore s (s.deliverTo i m) := by
   unfold deliverTo; split
   · exact SameCore.refl s
-  · have := finalize_core (s.setSig i { ‹Sig› with slot := some m }) i .ok
-    constructor <;> simp [this.1, this.2, this.3, this.4, this.5, this.6, this.7] <;> rfl
+  · constructor <;> rfl
+
+theorem claimFrom_core (i) : SameCore s (s.claimFrom i) := by
+  unfold claimFrom; split
+  · exact SameCore.refl s
+  · constructor <;> rfl
 
 theorem takeFrom_core (i) : SameCore s (s.takeFrom i) := by
   unfold takeFrom; split
@@ -250,6 +254,13 @@ theorem foldl_takeFrom_core (l : List SigId) : SameCore s (l.foldl takeFrom s) :
 @[simp] theorem foldl_takeFrom_accepted (l : List SigId) : (l.foldl takeFrom s).accepted = s.accepted := (foldl_takeFrom_core s l).accepted
 @[simp] theorem foldl_giveR_delivered (ms : List Msg) : (ms.foldl giveR s).delivered = s.delivered := (foldl_giveR_core s ms).delivered
 @[simp] theorem foldl_takeFrom_delivered (l : List SigId) : (l.foldl takeFrom s).delivered = s.delivered := (foldl_takeFrom_core s l).delivered
+@[simp] theorem claimFrom_chan (i : SigId) : (s.claimFrom i).chan = s.chan := (claimFrom_core s i).chan
+@[simp] theorem claimFrom_liveS (i : SigId) : (s.claimFrom i).liveS = s.liveS := (claimFrom_core s i).liveS
+@[simp] theorem claimFrom_liveR (i : SigId) : (s.claimFrom i).liveR = s.liveR := (claimFrom_core s i).liveR
+@[simp] theorem claimFrom_closedOnce (i : SigId) : (s.claimFrom i).closedOnce = s.closedOnce := (claimFrom_core s i).closedOnce
+@[simp] theorem claimFrom_offered (i : SigId) : (s.claimFrom i).offered = s.offered := (claimFrom_core s i).offered
+@[simp] theorem claimFrom_accepted (i : SigId) : (s.claimFrom i).accepted = s.accepted := (claimFrom_core s i).accepted
+@[simp] theorem claimFrom_delivered (i : SigId) : (s.claimFrom i).delivered = s.delivered := (claimFrom_core s i).delivered
 @[simp] theorem newSig_fst_chan (g : Sig) : (s.newSig g).1.chan = s.chan := rfl
 @[simp] theorem newSig_fst_liveS (g : Sig) : (s.newSig g).1.liveS = s.liveS := rfl
 @[simp] theorem newSig_fst_liveR (g : Sig) : (s.newSig g).1.liveR = s.liveR := rfl
